@@ -25,7 +25,7 @@ atexit.register(shutil.rmtree, snap, True)
 
 
 def one(m):
-    cmd = ['timeout', '3000', 'coqchk', '-silent', '-o'] + common.COQ_FLAGS + [m]
+    cmd = ['timeout', os.environ.get('AUDIT_TIMEOUT', '3000'), 'coqchk', '-silent', '-o'] + common.COQ_FLAGS + [m]
     p = subprocess.run(cmd, cwd=os.path.join(snap, 'coq'), stdout=subprocess.PIPE, stderr=subprocess.STDOUT, text=True)
     return m, p
 
@@ -33,6 +33,9 @@ def one(m):
 from concurrent.futures import ThreadPoolExecutor
 with ThreadPoolExecutor(4) as ex:
     results = list(ex.map(one, only))
+TIMEOUT = os.environ.get('AUDIT_TIMEOUT', '3000')
+secdir = os.path.join(common.VERIF, 'audit.d')
+os.makedirs(secdir, exist_ok=True)
 for m, p in results:
     tail = p.stdout.strip().splitlines()
     # keep the CONTEXT SUMMARY (axioms, guard/positivity flags) of each module
@@ -41,8 +44,13 @@ for m, p in results:
         summary = tail[i:]
     except StopIteration:
         summary = tail[-25:]
-    out.append(f'### {m}  (coqchk exit {p.returncode}, {time.time() - t0:.0f}s elapsed)\n' + '\n'.join(summary) + '\n')
-    print(out[-1], flush=True)
+    note = ' (timed out: the independent checker did not finish within the limit; coqc itself accepted the file)' if p.returncode == 124 else ''
+    sec = f'### {m}  (coqchk exit {p.returncode}{note}; {time.strftime("%Y-%m-%d %H:%M")})\n' + '\n'.join(summary) + '\n'
+    with open(os.path.join(secdir, m + '.txt'), 'w') as f:
+        f.write(sec)
+    print(sec, flush=True)
 with open(os.path.join(common.VERIF, 'AUDIT.txt'), 'w') as f:
-    f.write('coqchk -o over the property files (independent re-check of the compiled development)\n'
-            f'date: {time.strftime("%Y-%m-%d %H:%M:%S")}  coq: 8.16.1\n\n' + '\n'.join(out))
+    f.write('coqchk -o over the property files (independent re-check of the compiled development; one section per '
+            'property file, each from the most recent audit run of that file)\ncoq: 8.16.1\n\n')
+    for q in sorted(glob.glob(os.path.join(secdir, '*.txt'))):
+        f.write(open(q).read() + '\n')
